@@ -123,7 +123,7 @@ class Checked:
             post_args = dict(call_args)
             post_args["result"] = result
             if snap is not None:
-                post_args["old"] = snap
+                post_args["snap"] = snap
             try:
                 clauses = _named(self._invoke(cd["ensures"], post_args))
             except ClauseFailure:
